@@ -4,7 +4,7 @@ from . import core
 from . import treeref
 from .common import diff_streams
 
-LEVEL = "exploration"
+LEVEL = "proof"
 LIMITS = [1, 2, 3, 5, 8, 13, 25, 99, 300]
 THREADS = [1, 2, 3, 5, 8, 16]
 
